@@ -326,7 +326,12 @@ def active_vertices_not_adjacent(
         if isinstance(is_active, BoolArray2D):
             raise TypeError("'is_active' should be sequence-like if graph is specified")
         for i, j in graph:
-            solver.ensure(~(is_active[i] & is_active[j]))
+            both_active = is_active[i] & is_active[j]
+            if isinstance(both_active, bool):
+                # two Python bools: `~` on a bool would produce an int
+                solver.ensure(not both_active)
+            else:
+                solver.ensure(~both_active)
 
 
 @overload
